@@ -31,6 +31,16 @@
 (* then coming back at clock positions around the end of the lifetime and  *)
 (* around the IdP's ends.                                                  *)
 (*                                                                         *)
+(* The mint of parts "map" and "life" is the ACS path: the codec's New     *)
+(* (steps Times .. SessionIndex) and then the step of the PROVIDER,         *)
+(* CookieSessionProvider.CreateSession (session_cookie.go:31-62): Encode   *)
+(* the claims as New made them, Set-Cookie with the provider's own MaxAge. *)
+(* A deployment has TWO durations: JWTSessionCodec.MaxAge (cfg.life, the   *)
+(* session lifetime the statement speaks of) and CookieSessionProvider.    *)
+(* MaxAge (cfg.cookieSecs, how long the browser is asked to keep the       *)
+(* cookie) - equal in samlsp.New's defaults, separate settings for anyone  *)
+(* who builds the provider by hand.                                        *)
+(*                                                                         *)
 (* The Properties section is written from the statement of C16 only.       *)
 (***************************************************************************)
 EXTENDS Integers, Sequences, FiniteSets, TLC, Json
@@ -39,9 +49,11 @@ CONSTANTS Family,            \* "C16q" | "C16t" : which input families Init rang
           EnforceMethods,    \* parser.ValidMethods = {configured alg}      (TRUE in the code)
           EnforceSessMarker, \* JWTSessionCodec.Decode checks saml-session        (TRUE)
           EnforceTrkMarker,  \* JWTTrackedRequestCodec.Decode checks saml-authn-request (TRUE)
-          SessionEndRule     \* what JWTSessionCodec.New does with AuthnStatement/@SessionNotOnOrAfter:
+          SessionEndRule,    \* what JWTSessionCodec.New does with AuthnStatement/@SessionNotOnOrAfter:
                              \* "ignore" (the code) | "min" (an earlier IdP end shortens the session) |
                              \* "max" (a later IdP end lengthens it)
+          CookieAgeOverridesExp  \* CookieSessionProvider.CreateSession rewrites the token's exp to
+                             \* iat + the PROVIDER's (cookie) MaxAge when that is positive   (FALSE in the code)
 \* The three switches are TRUE in every registered configuration.  Setting one to
 \* FALSE is the design-level counterpart of the code mutants C16 must catch: TLC then
 \* reports OnlyMintedSessionTokensAuthenticate (resp. TrackerRefusesSessionTokens) violated.
@@ -49,6 +61,11 @@ CONSTANTS Family,            \* "C16q" | "C16t" : which input families Init rang
 \* IgnoresIdPSessionEnd: the code reads none of the IdP-stated ends).  "min" is a stricter
 \* implementation the statement permits: every invariant still holds.  "max" is the design-level
 \* counterpart of a code change C16 must catch: TLC reports NothingLengthensTheSession violated.
+\* CookieAgeOverridesExp is FALSE in every registered configuration (the provider encodes the claims
+\* exactly as the codec's New made them).  TRUE is the named deviation of the same name, the
+\* design-level counterpart of a code change C16 must catch ("keep token and cookie in step"): with a
+\* cookie MaxAge longer than the codec's, TLC reports NothingLengthensTheSession (part "life") and
+\* OnlyMintedSessionTokensAuthenticate (part "token", reason tooOld) violated.
 
 Absent  == -999999999      \* a time claim that is not in the token (StandardClaims: 0 = unset)
 Far     == 100000          \* "far" in seconds; larger than every lifetime used
@@ -62,18 +79,32 @@ VARIABLES part,    \* "token" | "map" | "life"
           err,     \* error GetSession returns: "none" | "nil" | "ErrNoSession"
           out,     \* RequireAccount: "none" | "handler" | "flow" | "onerror"
           subj, claims, si, ai, ni,     \* parts "map", "life": JWTSessionCodec.New state
-          mt                            \* ... the token's iat, nbf, exp in seconds after the mint
+          mt                            \* ... the token's iat, nbf, exp in seconds after the mint, and
+                                        \*     ckMaxAge: the Max-Age attribute of the Set-Cookie that carries it
 vars == <<part, cfg, in, pc, res, err, out, subj, claims, si, ai, ni, mt>>
 
 ----------------------------------------------------------------------------
 (* configurations *)
-Cfg(k, l, c) == [spkey |-> k, life |-> l, cookie |-> c]
+\* life       = JWTSessionCodec.MaxAge in seconds: THE session lifetime
+\* cookieAge  = class of CookieSessionProvider.MaxAge relative to it, cookieSecs = its value in seconds:
+\*              equal (samlsp.New's defaults: both one hour) | longer (a persistent cookie around a
+\*              short-lived token: lifetime + seven hours, the "beyond" position of part "life") |
+\*              shorter (half the lifetime, the "inside" position) | zero (a browser-session cookie:
+\*              net/http writes no Max-Age attribute)
+BeyondBy == 25200
+CookieClasses == {"equal", "longer", "shorter", "zero"}
+CookieSecs(a, l) == CASE a = "equal" -> l [] a = "longer" -> l + BeyondBy [] a = "shorter" -> l \div 2 [] a = "zero" -> 0
+CfgC(k, l, c, a) == [spkey |-> k, life |-> l, cookie |-> c, cookieAge |-> a, cookieSecs |-> CookieSecs(a, l)]
+Cfg(k, l, c) == CfgC(k, l, c, "equal")
+WithCookie(cfgs) == { CfgC(c.spkey, c.life, c.cookie, a) : c \in cfgs, a \in CookieClasses \ {"equal"} }
 AllCfgs  == { Cfg(k, l, c) : k \in {"RSA", "ECDSA"}, l \in {3600, 60}, c \in {"default", "custom"} }
 DiagCfgs == { Cfg("RSA", 3600, "default"), Cfg("ECDSA", 60, "custom") }
 FourCfgs == DiagCfgs \cup { Cfg("RSA", 60, "custom"), Cfg("ECDSA", 3600, "default") }
 \* degenerate session lifetimes: a codec configured with a zero, one-second or negative MaxAge
 \* still mints an expiry, so its tokens authenticate (almost) never
 EdgeCfgs == { Cfg("RSA", 0, "default"), Cfg("ECDSA", 1, "custom"), Cfg("RSA", -60, "custom") }
+\* the two durations separated
+CookieCfgs == IF Family = "C16q" THEN WithCookie(DiagCfgs) ELSE WithCookie(FourCfgs)
 
 ----------------------------------------------------------------------------
 (* tokens *)
@@ -144,6 +175,9 @@ CoreScope == { [Base EXCEPT !.kind = k, !.iss = i, !.aud = a, !.audform = f, !.m
 \* tokens minted by real code: iat = nbf = mint time, exp = mint time + lifetime
 Ages(l) == {-Far, -1, 0, 1, l \div 2, l - 1, l, l + 1, l + Far}
 LifeOf(kind, c) == IF kind = "session" THEN c.life ELSE TrkLife
+\* what the mint writes into exp, seconds after the mint: the codec's MaxAge (session_jwt.go:40,
+\* request_tracker_jwt.go) - under the deviation CookieAgeOverridesExp the session provider's instead
+MintExp(kind, c) == IF CookieAgeOverridesExp /\ kind = "session" /\ c.cookieSecs > 0 THEN c.cookieSecs ELSE LifeOf(kind, c)
 Minted(kind, depl, form, age, life, mut, slot) ==
   [src |-> "minted", kind |-> kind, alg |-> "configured",
    key |-> IF depl = "otherKey" THEN "other" ELSE "this",
@@ -153,9 +187,10 @@ Minted(kind, depl, form, age, life, mut, slot) ==
    marker |-> "true", mutation |-> mut, slot |-> slot, age |-> age]
 KindForms == { <<"session", "str">>, <<"tracking", "arr">>, <<"tracking", "str">> }   \* str: jwt.MarshalSingleStringAsArray = FALSE
 Depls == {"this", "otherKey", "otherURL"}
-MintedPlain(c) == UNION { { Minted(kf[1], d, kf[2], a, LifeOf(kf[1], c), "none", "named") :
+\* (the clock positions are those of the configured lifetime, whatever the mint wrote)
+MintedPlain(c) == UNION { { Minted(kf[1], d, kf[2], a, MintExp(kf[1], c), "none", "named") :
                               d \in Depls, a \in Ages(LifeOf(kf[1], c)) } : kf \in KindForms }
-MintedMut(c)   == UNION { { Minted(kf[1], "this", kf[2], a, LifeOf(kf[1], c), m, s) :
+MintedMut(c)   == UNION { { Minted(kf[1], "this", kf[2], a, MintExp(kf[1], c), m, s) :
                               a \in {1, LifeOf(kf[1], c) + 1}, m \in Mutations, s \in {"named", "other"} } : kf \in KindForms }
 
 On(cfgs, toks) == { <<c, t>> : c \in cfgs, t \in { x \in toks : WF(x) } }
@@ -164,10 +199,10 @@ OnM(cfgs, F(_)) == UNION { { <<c, t>> : t \in F(c) } : c \in cfgs }
 TokCases ==
   CASE Family = "C16q" -> On(FourCfgs, Singles(Base)) \cup On(DiagCfgs, Pairs(Base))
                           \cup On(DiagCfgs, CoreAlg \cup CoreTime \cup CoreScope)
-                          \cup OnM(AllCfgs \cup EdgeCfgs, MintedPlain) \cup OnM(DiagCfgs, MintedMut)
+                          \cup OnM(AllCfgs \cup EdgeCfgs \cup CookieCfgs, MintedPlain) \cup OnM(DiagCfgs, MintedMut)
     [] Family = "C16t" -> On(AllCfgs, Pairs(Base)) \cup On(DiagCfgs, Triples(Base))
                           \cup On(AllCfgs, CoreAlg \cup CoreTime \cup CoreScope)
-                          \cup OnM(AllCfgs \cup EdgeCfgs, MintedPlain) \cup OnM(AllCfgs, MintedMut)
+                          \cup OnM(AllCfgs \cup EdgeCfgs \cup CookieCfgs, MintedPlain) \cup OnM(AllCfgs, MintedMut)
 
 ----------------------------------------------------------------------------
 (* assertions (part "map") *)
@@ -203,7 +238,6 @@ Keys == {"F1", "N1", "N2", "SI"}
 \* cond  : Conditions/@NotOnOrAfter,  scd : SubjectConfirmationData/@NotOnOrAfter
 \* age   : seconds between the mint and the presentation of the token
 EndPos   == {"none", "before", "inside", "beyond"}
-BeyondBy == 25200
 EndAt(p, l) == CASE p = "before" -> -300 [] p = "inside" -> l \div 2 [] p = "beyond" -> l + BeyondBy [] OTHER -> Absent
 LifeAssn(authn, sna, cond, scd, age) ==
   [subject |-> "nameid", stmts |-> << <<Attr("", "N1", <<"a">>)>> >>, authn |-> authn, sna |-> sna,
@@ -218,9 +252,15 @@ AuthnFew  == { <<<<>>, <<>>>>, << <<"s1">>, <<"none">> >>, << <<"s1">>, <<"beyon
                << <<"s1", "s2">>, <<"before", "beyond">> >> }
 \* every AuthnStatement layout without other ends, a few layouts with every combination of the
 \* Conditions and SubjectConfirmationData ends; C16t: the full product under the diagonal configurations
-LifeSel(c, a, cd, sc) == IF Family = "C16t" /\ c \in DiagCfgs THEN TRUE
-                         ELSE IF cd = "none" /\ sc = "none" THEN TRUE ELSE a \in AuthnFew
-LifeCfgs == IF Family = "C16q" THEN DiagCfgs ELSE FourCfgs
+\* configurations whose cookie MaxAge differs from the lifetime: the few layouts, without other ends
+\* and with both other ends beyond; C16t: the C16q selection of the equal class under the diagonal ones
+DiagBase(c) == Cfg(c.spkey, c.life, c.cookie) \in DiagCfgs
+LifeSelEq(full, a, cd, sc) == IF full THEN TRUE
+                              ELSE IF cd = "none" /\ sc = "none" THEN TRUE ELSE a \in AuthnFew
+LifeSel(c, a, cd, sc) == IF c.cookieAge = "equal" THEN LifeSelEq(Family = "C16t" /\ c \in DiagCfgs, a, cd, sc)
+                         ELSE IF Family = "C16t" /\ DiagBase(c) THEN LifeSelEq(FALSE, a, cd, sc)
+                         ELSE a \in AuthnFew /\ << cd, sc >> \in { <<"none", "none">>, <<"beyond", "beyond">> }
+LifeCfgs == (IF Family = "C16q" THEN DiagCfgs ELSE FourCfgs) \cup CookieCfgs
 
 ----------------------------------------------------------------------------
 Init == /\ \/ /\ part = "token" /\ (\E p \in TokCases : cfg = p[1] /\ in = p[2])
@@ -234,7 +274,7 @@ Init == /\ \/ /\ part = "token" /\ (\E p \in TokCases : cfg = p[1] /\ in = p[2])
         /\ res = [sess |-> [verdict |-> "none", step |-> "none"], trk |-> [verdict |-> "none", step |-> "none"]]
         /\ err = "none" /\ out = "none"
         /\ subj = "" /\ claims = [k \in Keys |-> <<>>] /\ si = 1 /\ ai = 1 /\ ni = 1
-        /\ mt = [iat |-> Absent, nbf |-> Absent, exp |-> Absent]
+        /\ mt = [iat |-> Absent, nbf |-> Absent, exp |-> Absent, ckMaxAge |-> Absent]
 
 (********************** the decode machines, step by step *****************)
 \* which marker claims the token carries
@@ -335,7 +375,7 @@ KeyOf(a) == IF a.fn # "" THEN a.fn ELSE a.name          \* session_jwt.go:54-57
 
 \* :35-42 now := saml.TimeNow(); IssuedAt = NotBefore = now, ExpiresAt = now + MaxAge
 MintTimes == /\ pc = <<"map", "Times">>
-             /\ mt' = [iat |-> 0, nbf |-> 0, exp |-> cfg.life]
+             /\ mt' = [mt EXCEPT !.iat = 0, !.nbf = 0, !.exp = cfg.life]
              /\ pc' = <<"map", "Subject">>
              /\ UNCHANGED <<part, cfg, in, res, err, out, subj, claims, si, ai, ni>>
 
@@ -365,11 +405,26 @@ EndRule(exp, e) == CASE e = Absent \/ SessionEndRule = "ignore" -> exp
                      [] SessionEndRule = "max" -> IF e > exp THEN e ELSE exp
 MapSessionIndex == /\ pc = <<"map", "SessionIndex">>
                    /\ IF ni > Len(in.authn)
-                        THEN pc' = <<"map", "Present">> /\ UNCHANGED <<claims, ni, mt>>
+                        THEN pc' = <<"map", "CreateSession">> /\ UNCHANGED <<claims, ni, mt>>
                         ELSE /\ claims' = [claims EXCEPT !["SI"] = Append(@, in.authn[ni])]
                              /\ mt' = [mt EXCEPT !.exp = EndRule(@, SnaAt(ni))]
                              /\ ni' = ni + 1 /\ UNCHANGED pc
                    /\ UNCHANGED <<part, cfg, in, res, err, out, subj, si, ai>>
+
+\* CookieSessionProvider.CreateSession (session_cookie.go:31-62), the step of the PROVIDER after the
+\* codec's New: value := Codec.Encode(session) - the claims go into the token exactly as New made
+\* them, the provider's own MaxAge plays no part in the token - and http.SetCookie with
+\* MaxAge = int(c.MaxAge.Seconds()), which net/http writes as "Max-Age=n" for n > 0, as "Max-Age=0"
+\* for n < 0 and not at all for n = 0 (Absent).
+\* Named deviation CookieAgeOverridesExp (FALSE in the code): the provider rewrites exp to
+\* iat + its own MaxAge when that is positive, "to keep token and cookie in step".
+CookieAttr(x) == IF x > 0 THEN x ELSE IF x < 0 THEN 0 ELSE Absent
+ProviderCreateSession ==
+  /\ pc = <<"map", "CreateSession">>
+  /\ mt' = [mt EXCEPT !.exp = IF CookieAgeOverridesExp /\ cfg.cookieSecs > 0 THEN mt.iat + cfg.cookieSecs ELSE @,
+                      !.ckMaxAge = CookieAttr(cfg.cookieSecs)]
+  /\ pc' = <<"map", "Present">>
+  /\ UNCHANGED <<part, cfg, in, res, err, out, subj, claims, si, ai, ni>>
 
 \* the token is encoded, presented while fresh, decoded: the handler runs with these claims
 MapPresent == /\ pc = <<"map", "Present">> /\ part = "map"
@@ -395,7 +450,7 @@ Next == \/ \E c \in {"sess", "trk"} :
              \/ CheckAlgAllowed(c) \/ VerifySignature(c) \/ CheckTimes(c) \/ CheckAudience(c)
              \/ CheckIssuer(c) \/ CheckMarker(c) \/ Accept(c)
         \/ CheckIndex \/ ReturnSession \/ RequireAccount \/ ReturnTracker
-        \/ MintTimes \/ MapSubject \/ MapAttr \/ MapSessionIndex \/ MapPresent \/ LifePresent
+        \/ MintTimes \/ MapSubject \/ MapAttr \/ MapSessionIndex \/ ProviderCreateSession \/ MapPresent \/ LifePresent
 Spec == Init /\ [][Next]_vars
 
 (************************** Properties (statement) *************************)
@@ -409,16 +464,23 @@ Why == [otherKey   |-> in.key # "this",                                   \* sig
         otherAlg   |-> in.alg # "configured",                             \* another algorithm
         notSession |-> SessMark(in) # "true",                             \* tracking token / no session marker
         expired    |-> in.exp # Absent /\ in.exp <= -1,                   \* expired by a second or more
+        \* this SP's codec issued it longer ago than the configured session lifetime (the codec's
+        \* MaxAge), by a second or more - whatever exp the mint wrote into it
+        tooOld     |-> in.src = "minted" /\ in.kind = "session" /\ in.age >= cfg.life + 1,
         notYet     |-> in.nbf # Absent /\ in.nbf >= 1,                    \* not yet valid by a second or more
         otherAud   |-> in.aud # "eq",
         otherIss   |-> in.iss # "eq",
         altered    |-> in.mutation \notin {"none", "sigB64Tail"}]          \* truncated or altered
 MustReject == Tok /\ \E f \in DOMAIN Why : Why[f]
 \* a token this deployment's CreateSession returned, presented unchanged in the session cookie
-\* strictly inside (iat, exp), boundary seconds excluded
+\* strictly inside (iat, exp), boundary seconds excluded.  The cookie's Max-Age is no clause of the
+\* statement: a token presented after a SHORTER cookie age has run out (the browser was asked to
+\* drop the cookie by then) may or may not authenticate - left open, like an earlier IdP end.
+CookieEnds == IF cfg.cookieSecs > 0 /\ cfg.cookieSecs < cfg.life THEN {cfg.cookieSecs} ELSE {}
 MustAccept == /\ Tok /\ in.src = "minted" /\ in.kind = "session" /\ in.key = "this"
               /\ in.iss = "eq" /\ in.aud = "eq" /\ in.mutation = "none" /\ in.slot = "named"
               /\ in.iat <= -1 /\ in.exp >= 1
+              /\ in.age <= cfg.life - 1 /\ \A e \in CookieEnds : in.age <= e - 1
 Class == IF MustReject THEN "MustReject" ELSE IF MustAccept THEN "MustAccept" ELSE "DontCare"
 
 OnlyMintedSessionTokensAuthenticate == Done /\ MustReject => ~Ran
@@ -446,18 +508,22 @@ ExposesExactlyTheAssertion ==
   Done /\ part = "map" => /\ Ran /\ \A k \in Keys : claims[k] = ExpectedVals(k)
                           /\ subj = IF in.subject = "nameid" THEN "S" ELSE ""
 \* "no longer ago than the session lifetime": the session ends, at the latest, one lifetime after
-\* this SP's codec issued the token.  The IdP may state ends of its own in the assertion; an
-\* implementation may or may not let an EARLIER one shorten the session (the statement does not
-\* say), but nothing in the assertion can lengthen it.
+\* this SP's codec issued the token.  The session lifetime is the one configured for the session
+\* codec (JWTSessionCodec.MaxAge = cfg.life), whatever Max-Age the cookie provider gives the cookie
+\* (cfg.cookieSecs): a cookie kept longer than the lifetime carries a dead token.  The IdP may state
+\* ends of its own in the assertion, and the cookie may be given a shorter age; an implementation may
+\* or may not let an EARLIER one of these shorten the session (the statement does not say), but
+\* nothing in the assertion or in the cookie settings can lengthen it.
 Life == part = "life"
 Min(S) == CHOOSE x \in S : \A y \in S : x <= y
 IdPEnds == ({ EndAt(in.sna[i], cfg.life) : i \in DOMAIN in.sna }
             \cup { EndAt(in.cond, cfg.life), EndAt(in.scd, cfg.life) }) \ {Absent}
-EarliestEnd == Min({cfg.life} \cup IdPEnds)
+EarliestEnd == Min({cfg.life} \cup IdPEnds \cup CookieEnds)
 LifeWhy == [tooOld |-> in.age >= cfg.life + 1,           \* issued longer ago than the lifetime, by a second or more
             notYet |-> in.age <= -1]                     \* presented before it was issued
 LifeMustReject == Life /\ (LifeWhy.tooOld \/ LifeWhy.notYet)
-\* issued by this SP no longer ago than the lifetime and before every end the IdP stated
+\* issued by this SP no longer ago than the lifetime, before every end the IdP stated and before a
+\* shorter cookie age has run out
 LifeMustAccept == Life /\ in.age >= 1 /\ in.age <= EarliestEnd - 1
 LifeClass == IF LifeMustReject THEN "MustReject" ELSE IF LifeMustAccept THEN "MustAccept" ELSE "DontCare"
 NothingLengthensTheSession        == Done /\ LifeMustReject => ~Ran
@@ -489,9 +555,11 @@ EmitTok == Done /\ Tok => PrintT(<<"VEC", ToJson([prop |-> "C16", cfg |-> cfg, i
                                                   pred |-> [sess |-> res.sess, out |-> out, trk |-> res.trk]])>>)
 EmitMap == Done /\ part = "map" => PrintT(<<"MAP", ToJson([prop |-> "C16", cfg |-> cfg, in |-> in, class |-> MapClass,
                                                            pred |-> [subj |-> subj, claims |-> claims, gates |-> Gates,
+                                                                     exp |-> mt.exp, ckMaxAge |-> mt.ckMaxAge,
                                                                      noSessionAdmit |-> GateNoSession]])>>)
 EmitLife == Done /\ Life => PrintT(<<"LIFE", ToJson([prop |-> "C16", cfg |-> cfg, in |-> in, class |-> LifeClass, why |-> LifeWhy,
                                                      at |-> [sna |-> [i \in DOMAIN in.sna |-> EndAt(in.sna[i], cfg.life)],
                                                              cond |-> EndAt(in.cond, cfg.life), scd |-> EndAt(in.scd, cfg.life)],
-                                                     pred |-> [out |-> out, exp |-> mt.exp, subj |-> subj, claims |-> claims]])>>)
+                                                     pred |-> [out |-> out, exp |-> mt.exp, ckMaxAge |-> mt.ckMaxAge,
+                                                               subj |-> subj, claims |-> claims]])>>)
 =============================================================================
